@@ -121,6 +121,10 @@ class Hooks:
     def isinstance_unknown(self, I, v, cls):
         return None
 
+    def subscript(self, I, v, lo, hi, idx, site):
+        """v[lo:hi] (idx None) or v[idx] on an abstract object the rule models; NotImplemented = default"""
+        return NotImplemented
+
 
 class Interp:
     MAX_DEPTH = 12
@@ -139,6 +143,7 @@ class Interp:
         self._loopctr: list[int] = []
         self.value_ctx = False
         self.steps = 0
+        self.envstack: list[Env] = []  # environments of the active intra-package calls (innermost last)
 
     # ------------------------------------------------------------------ decisions
     def decide(self, tag: str) -> bool:
@@ -418,10 +423,13 @@ class Interp:
                 return Str([l, "/", self.to_strpart(r)])
         if isinstance(l, Const) and isinstance(r, Const) and isinstance(l.v, (int, float)) and isinstance(r.v, (int, float)):
             try:
-                return Const({ast.Add: lambda a, b: a + b, ast.Sub: lambda a, b: a - b, ast.Mult: lambda a, b: a * b}[
+                return Const({ast.Add: lambda a, b: a + b, ast.Sub: lambda a, b: a - b, ast.Mult: lambda a, b: a * b,
+                              ast.FloorDiv: lambda a, b: a // b, ast.Mod: lambda a, b: a % b, ast.Div: lambda a, b: a / b}[
                     type(e.op)](l.v, r.v))
-            except (KeyError, ZeroDivisionError):
+            except KeyError:
                 pass
+            except ZeroDivisionError:
+                raise _Raise(ExcV("builtins.ZeroDivisionError", {}, [Const("division by zero")])) from None
         op = type(e.op).__name__
         return Sym(f"({tagof(l)} {op} {tagof(r)})", origin=("binop", op, l, r),
                    typ="str" if isinstance(e.op, ast.Mod) and _strlike(l) else None)
@@ -524,12 +532,23 @@ class Interp:
         if isinstance(v, (ClsRef, Ext)):  # typing generics: tuple[...], list[...]
             return v
         idx = self.ev(e.slice, env) if not isinstance(e.slice, ast.Slice) else None
-        return self.getitem(v, idx, e)
+        self._sub_env = env
+        try:
+            return self.getitem(v, idx, e)
+        finally:
+            self._sub_env = None
 
     def getitem(self, v, idx, e):
         if isinstance(e.slice, ast.Slice):
             lo = self.ev(e.slice.lower, Env("?")) if isinstance(e.slice.lower, ast.Constant) else None
             hi = self.ev(e.slice.upper, Env("?")) if isinstance(e.slice.upper, ast.Constant) else None
+            if isinstance(v, (Obj, Sym)) and e.slice.step is None:
+                env = getattr(self, "_sub_env", None)
+                blo = lo if lo is not None or e.slice.lower is None or env is None else self.ev(e.slice.lower, env)
+                bhi = hi if hi is not None or e.slice.upper is None or env is None else self.ev(e.slice.upper, env)
+                r = self.hooks.subscript(self, v, blo, bhi, None, e)
+                if r is not NotImplemented:
+                    return r
             if isinstance(v, (Tup, Lst)) and all(x is None or isinstance(x, Const) for x in (lo, hi)) and (
                 (e.slice.lower is None or lo is not None) and (e.slice.upper is None or hi is not None)
             ) and not getattr(v, "open", False):
@@ -549,6 +568,13 @@ class Interp:
         if isinstance(v, ExcV) and isinstance(idx, Const):
             return Sym(f"{v.tag}.args[{idx.v}]", typ="str")
         return Sym(f"{tagof(v)}[{tagof(idx)}]", origin=("index", v, idx))
+
+    def ev_Yield(self, e, env):
+        # only reached when the hooks ask for generator bodies to be interpreted straight through (a context manager
+        # entered and left normally): the yield hands out its value and resumes with None
+        v = self.ev(e.value, env) if e.value is not None else Const(None)
+        self.effect("yield", v, e)
+        return Const(None)
 
     def ev_Await(self, e, env):
         return self.ev(e.value, env)
@@ -889,13 +915,14 @@ class Interp:
             self.effect("call", key, args, kwargs, site)
             return Sym(f"{key}()@{self.siteid(site)}", origin=("call", key, args, kwargs))
         node = f.node
-        if any(isinstance(n, (ast.Yield, ast.YieldFrom)) for n in ast.walk(node)):
+        if any(isinstance(n, (ast.Yield, ast.YieldFrom)) for n in ast.walk(node)) and not getattr(self.hooks, "run_generators", False):
             self.effect("call", key, args, kwargs, site)
             return Sym(f"{key}()@{self.siteid(site)}", origin=("call", key, args, kwargs))
         env = Env(f.mod, f.qual, f.closure)
         self.bind(node.args, args, kwargs, env, f.self_val)
         self.depth += 1
         self.callstack.append(key)
+        self.envstack.append(env)
         self.effect("enter", key, site)
         saved_loop = self._loopctr
         self._loopctr = [*saved_loop, hash(self.siteid(site)) % 997] if site is not None and saved_loop else saved_loop
@@ -909,6 +936,7 @@ class Interp:
         finally:
             self._loopctr = saved_loop
             self.callstack.pop()
+            self.envstack.pop()
             self.depth -= 1
             self.effect("leave", key)
 
@@ -1024,7 +1052,16 @@ class Interp:
                 return Const(len(a0.items))
             if isinstance(a0, Const) and isinstance(a0.v, (str, tuple, list)):
                 return Const(len(a0.v))
+            if isinstance(a0, Obj) and isinstance(a0.attrs.get("__len__"), Const):
+                return a0.attrs["__len__"]
             return Sym(f"len({tagof(a0)})", origin=("len", a0), typ="int")
+        if b == "range" and args and all(isinstance(x, Const) and isinstance(x.v, int) for x in args) and len(range(*[x.v for x in args])) <= 64:
+            return Lst([Const(i) for i in range(*[x.v for x in args])])
+        if b in ("min", "max") and len(args) >= 2 and all(isinstance(x, Const) and isinstance(x.v, (int, float)) for x in args):
+            return Const((min if b == "min" else max)(x.v for x in args))
+        if d in ("math.ceil", "math.floor") and isinstance(a0, Const) and isinstance(a0.v, (int, float)):
+            import math
+            return Const(math.ceil(a0.v) if d == "math.ceil" else math.floor(a0.v))
         if b == "sorted" and isinstance(a0, (Tup, Lst)) and not getattr(a0, "open", False) and ("key" in kwargs or "reverse" in kwargs):
             keyf = kwargs.get("key")
             keys = [self.call(keyf, [x], {}, site, env) if keyf is not None else x for x in a0.items]
@@ -1514,6 +1551,10 @@ class Interp:
         if isinstance(s, ast.AugAssign):
             cur = self.ev(s.target, env)
             rhs = self.ev(s.value, env)
+            if isinstance(s.op, ast.Add) and isinstance(cur, Lst) and isinstance(rhs, (Lst, Tup)):
+                cur.items.extend(rhs.items)  # list += is an in-place extend: every alias of the list sees it
+                self.effect("list-extend", cur, rhs, s)
+                return
             if isinstance(s.op, ast.Add) and (_strlike(cur) or _strlike(rhs)):
                 v = mkstr([self.to_strpart(cur), self.to_strpart(rhs)])
             elif isinstance(s.op, ast.Add) and isinstance(cur, Const) and isinstance(rhs, Const):
